@@ -514,6 +514,22 @@ func runCase(c Case, st *ev.Stats) error {
 				}
 				faults++
 			}
+		case "errmix":
+			// errors of two workers queued back to back (from inside an Eval, so that they all wait in the
+			// queue together): the first worker goes over the limit while the other's error is right behind
+			if as := trackedAddrs(); len(as) > 1 {
+				a, b := as[op.Idx%len(as)], as[(op.Idx+1)%len(as)]
+				n := s.WorkerErrKill + 1
+				s.Mach.Eval("c15errmix", func() {
+					for i := 0; i < n; i++ {
+						node.AddErrWorker(nil, s.Mach, fmt.Errorf("worker error %d (mix)", i), node.Pass(&node.A{LocalAddr: a}))
+					}
+					node.AddErrWorker(nil, s.Mach, fmt.Errorf("worker error (mix, other)"), node.Pass(&node.A{LocalAddr: b}))
+				}, ctx)
+				errsSent[a] += n
+				errsSent[b]++
+				faults++
+			}
 		case "kill":
 			if as := trackedAddrs(); len(as) > 0 {
 				s.Mach.Add1(ssS.KillingWorker, node.Pass(&node.A{LocalAddr: as[op.Idx%len(as)]}))
@@ -597,12 +613,12 @@ func genCase(t *rapid.T) Case {
 	}
 	nf := rapid.IntRange(0, 8).Draw(t, "nforks")
 	for i := 0; i < nf; i++ {
-		c.Forks = append(c.Forks, rapid.SampledFrom([]string{"ok", "ok", "ok", "fail", "slow"}).Draw(t, "fork"))
+		c.Forks = append(c.Forks, rapid.SampledFrom([]string{"ok", "ok", "fail", "slow", "slow"}).Draw(t, "fork"))
 	}
 	c.KillRemoves = rapid.Bool().Draw(t, "killRemoves")
 	no := rapid.IntRange(0, 6).Draw(t, "ops")
 	for i := 0; i < no; i++ {
-		k := rapid.SampledFrom([]string{"forks", "forks", "stop", "err", "err", "kill", "heartbeat", "normalize", "wait"}).Draw(t, "op")
+		k := rapid.SampledFrom([]string{"forks", "forks", "forks", "stop", "err", "errmix", "errmix", "kill", "heartbeat", "normalize", "wait"}).Draw(t, "op")
 		c.Ops = append(c.Ops, Op{Kind: k, N: rapid.IntRange(1, 5).Draw(t, "n"), Idx: rapid.IntRange(0, 5).Draw(t, "idx")})
 	}
 	return c
@@ -610,7 +626,7 @@ func genCase(t *rapid.T) Case {
 
 func TestSupervisor(t *testing.T) {
 	st := ev.G()
-	st.SetRapid(10, 320, 1)
+	st.SetRapid(16, 320, 1)
 	rapid.Check(t, func(t *rapid.T) {
 		c := genCase(t)
 		st.Journal(map[string]any{"kind": "c15", "case": c})
@@ -623,6 +639,28 @@ func TestSupervisor(t *testing.T) {
 			t.Fatalf("C15 violated: %v", err)
 		}
 	})
+}
+
+// TestScenarios: a seconds-long tier of fixed cases (each one a shape that generated search found
+// interesting: forks racing slow forks at a small Max, errors of two workers queued together, an error
+// burst, a real kill followed by normalisation, Max 0). They run through the same runCase and oracle.
+func TestScenarios(t *testing.T) {
+	st := ev.G()
+	cases := []Case{
+		{Min: 1, Max: 2, Warm: 0, Forks: []string{"slow", "slow", "slow", "slow", "slow"}, Ops: []Op{{Kind: "forks", N: 4}, {Kind: "wait", N: 2}, {Kind: "forks", N: 3}, {Kind: "wait", N: 2}}},
+		{Min: 2, Max: 3, Warm: 0, Ops: []Op{{Kind: "wait", N: 4}, {Kind: "errmix", Idx: 0}, {Kind: "wait", N: 2}}},
+		{Min: 2, Max: 3, Warm: 1, Ops: []Op{{Kind: "wait", N: 4}, {Kind: "errmix", Idx: 1}, {Kind: "heartbeat"}, {Kind: "wait", N: 2}}},
+		{Min: 2, Max: 2, Warm: 0, Ops: []Op{{Kind: "wait", N: 4}, {Kind: "err", N: 5, Idx: 0}, {Kind: "wait", N: 2}, {Kind: "heartbeat"}}},
+		{Min: 1, Max: 1, Warm: 0, KillRemoves: true, Ops: []Op{{Kind: "wait", N: 3}, {Kind: "kill"}, {Kind: "normalize"}, {Kind: "wait", N: 4}}},
+		{Min: 0, Max: 0, Warm: 0, Ops: []Op{{Kind: "forks", N: 3}, {Kind: "wait", N: 1}}},
+	}
+	for i, c := range cases {
+		st.Journal(map[string]any{"kind": "c15", "case": c})
+		if err := runCase(c, st); err != nil {
+			ev.G().PinLast()
+			t.Fatalf("C15 violated (scenario %d): %v", i, err)
+		}
+	}
 }
 
 func knownShape(c Case, err error) string {
